@@ -193,7 +193,9 @@ deriving DecidableEq, Repr
 
 inductive Res
   | errName | errIdna | errNoToken | errPolicy | errCache | errIssue
-  | token (c : Cert)
+  | token (c : Cert)         -- tls-alpn-01 challenge certificate from the cache (validated)
+  | tokenMem (c : Cert)      -- tls-alpn-01 challenge certificate from m.certTokens (returned as stored)
+  | expiredNotServed         -- only produced by `conform`: what the property demands for a stale m.state entry
   | served (c : Cert)        -- from m.state or the cache
   | issued (c : Cert)        -- freshly obtained from the CA
 deriving Repr
@@ -208,6 +210,7 @@ structure World where
   whitelist : Option (List Bytes)     -- HostPolicy (none = nil = every host)
   cache : Option Cache                -- none = no Cache configured
   state : List (Bytes × StateVal)     -- m.state, keyed by certKey.String()
+  tokens : List (Bytes × Cert) := []  -- m.certTokens: challenge certificates being validated, by name
   ca : CertKey → Option Cert          -- what the CA would issue for a key; none = order refused
 
 def policyOK (w : World) (name : Bytes) : Bool :=
@@ -240,12 +243,16 @@ def nameOK (h : Hello) : Bool := !h.name.isEmpty && (trimDots h.name).contains d
 /-- the certKey `GetCertificate` works with for a non-token hello -/
 def certKeyOf (h : Hello) (name : Bytes) : CertKey := ⟨trimSuffixDot name, !supportsECDSA h, false⟩
 
-/-- tls-alpn-01 challenge hello: only `m.certTokens` (empty here) and the cache; no host policy -/
+/-- tls-alpn-01 challenge hello: `m.certTokens[name]` as it is, else the cache under `name+token`;
+    the host policy is not consulted -/
 def tokenPath (w : World) (name : Bytes) (now : Int) : Outcome :=
-  let ck : CertKey := ⟨name, false, true⟩
-  match cacheGet w.cache ck now with
-  | .ok c => (getEv w ck, .token c, w.state)
-  | _ => (getEv w ck, .errNoToken, w.state)
+  match w.tokens.lookup name with
+  | some c => ([], .tokenMem c, w.state)
+  | none =>
+    let ck : CertKey := ⟨name, false, true⟩
+    match cacheGet w.cache ck now with
+    | .ok c => (getEv w ck, .token c, w.state)
+    | _ => (getEv w ck, .errNoToken, w.state)
 
 /-- `createCert` as the owner of a fresh state entry: order, `validCert` on the CA's answer, `cachePut` -/
 def issue (w : World) (ck : CertKey) (now : Int) : Outcome :=
@@ -282,6 +289,15 @@ def getCertificate (w : World) (h : Hello) (ascii : Option Bytes) (now : Int) : 
     else
       let r := lookupOrIssue w (certKeyOf h name) now
       (polEv w name ++ r.1, r.2)
+
+/-- What the property statement demands instead of the code's behaviour on a stale `m.state` entry
+    (observation O6): a certificate that is no longer valid at the clock of the call is not returned.
+    Everything else is `getCertificate` unchanged (same events, same new state). -/
+def conform (w : World) (h : Hello) (ascii : Option Bytes) (now : Int) : Outcome :=
+  let r := getCertificate w h ascii now
+  match r.2.1, ascii with
+  | .served c, some name => if validCert (certKeyOf h name) c now then r else (r.1, .expiredNotServed, r.2.2)
+  | _, _ => r
 
 /-! ## 3. `certState` / `createCert` as a transition system
 
